@@ -22,14 +22,16 @@ from ..core.framework import Ctx, b2s
 
 SPEC = {
     "modules": ["HC.Props.C05"],
-    "extracted": ["Guards", "Consts", "H11Tables"],
-    "technique": "Lean 4 theorems on the stream transducers (exit in REQUEST/HANDSHAKE => exactly a complete 500 then stream-closed; exit after the start => stream-closed with no end-of-body) composed with the h11 recycle rule (no EndOfMessage => our side is not DONE => Closed) and the HTTP/2 reset rule; tied by an exhaustive crash-point grid on both workers judged by independent client parsers",
-    "level_text": "Proved in Lean for every state of a request: when the application finishes (returns or raises) before a response start, the protocol layer is handed exactly a complete 500 response (content-length 0, connection: close), one access record and stream-closed; when it finishes after the start but before the end, it is handed stream-closed and never an end-of-body, so on HTTP/1 h11's writer is not DONE and the connection is closed instead of recycled (the response stays visibly incomplete), and on HTTP/2 the stream is reset; a WebSocket gets 500 in the handshake and close 1011 when connected.  Tie: every step index of five scripted applications x {raise, return} on HTTP/1.1 (with a pipelined follower), HTTP/2 (with a sibling stream that must complete) and WebSocket, both workers; verdicts by independent h11/h2 parsers; exactly one error-log record per raise.",
-    "level_note": "Trusted: Lean kernel; stream models and H11Protocol model (differential runs in C12/C06); h11 framing decides whether an aborted body is visibly incomplete: a response whose whole declared content-length was already written, or a close-delimited HTTP/1.0 body, cannot be distinguished from a complete one by any client and is outside the statement; the HTTP/2 reset rule is the code path added by the F06 repair.",
-    "rule": "script family x crash index x kind x protocol x worker (exhaustive grid); distinct = each grid cell; non-trivial = the application ends before completing its response",
+    "extracted": ["Guards", "Consts", "H11Tables", "AppExit"],
+    "technique": "Lean 4 theorems on (a) the try/except/finally of both workers' _handle as read off the source (every way the application can end - return, exception, cancellation, exception groups - signals completion; a raise is logged once and contained), (b) the stream transducers (exit in REQUEST/HANDSHAKE => exactly a complete 500 then stream-closed; exit after the start => stream-closed with no end-of-body; a refused message starts nothing, in the model and in the statement order of the REQUEST-state branches of the source) composed with the h11 recycle rule (no EndOfMessage => our side is not DONE => Closed) and the HTTP/2 reset rule; tied by an exhaustive crash-point grid on both workers judged by independent client parsers",
+    "level_text": "Proved in Lean for every state of a request: however the application ends (returns, raises an exception or an exception group, is cancelled) the try statement of _handle on both workers - extracted from the source on every run - signals completion, logs a raise exactly once before doing so and lets no exception but a cancellation travel further; when the application finishes before a response start, the protocol layer is handed exactly a complete 500 response (content-length 0, connection: close), one access record and stream-closed; a message the stream refuses (invalid headers or status, wrong state: the exception is raised into the application) hands nothing to the protocol and leaves the stream where it was, so dying with that exception is answered 500 before the start and aborts after it - proved for the model and, as statement order (state is assigned only after the Response event was handed over), for the source's REQUEST-state branches; when the application finishes after the start but before the end, the protocol is handed stream-closed and never an end-of-body, so on HTTP/1 h11's writer is not DONE and the connection is closed instead of recycled (the response stays visibly incomplete), and on HTTP/2 the stream is reset; a WebSocket gets 500 in the handshake and close 1011 when connected.  Tie: every step index of five scripted applications (the point after completion included) x {raise, return, cancel, refused message} with every variant of each (bare / group exception; cancelled inner await / own task cancelled; every refusal hypercorn makes in the state reached) on HTTP/1.1 (with a pipelined follower), HTTP/2 (with a sibling stream that must complete) and WebSocket, both workers; verdicts by independent h11/h2 parsers; exactly one error-log record per raise; stream-level model/implementation correspondence of the exit step after each refused message.",
+    "level_note": "Trusted: Lean kernel; stream models and H11Protocol model (differential runs in C12/C06); the extractor's reading of _handle and of the REQUEST-state branches (unrecognised statements are an EXTRACT-FAIL); h11 framing decides whether an aborted body is visibly incomplete: a response whose whole declared content-length was already written, or a close-delimited HTTP/1.0 body, cannot be distinguished from a complete one by any client and is outside the statement; the HTTP/2 reset rule is the code path added by the F06 repair.",
+    "rule": "script family x crash index x kind (raise / return / cancel / refused message) x variant x protocol x worker (exhaustive grid for the canonical variant, all variants on a sweep reaching every response state); distinct = each grid cell; non-trivial = the application ends before completing its response or dies after it",
     "trusted": ["h11 / h2 client parsers as the client's verdict"],
     "partial": [],
-    "assumptions": ["'logged' is required for raising applications only (a silent early return is not an error)"],
+    "assumptions": ["'logged' is required for raising applications (their own exception or one the server raised into them) only: a silent early return and a cancellation are not errors",
+                    "trio: a cancellation that reaches application code without the connection being torn down is one absorbed by a cancel scope of the application (trio never lets Cancelled leave the scope that owns it); the server then sees the application return",
+                    "whether a response had been started is read off the messages the server accepted from the application; a refused message starts nothing"],
 }
 
 START = {"type": "http.response.start", "status": 200, "headers": [(b"x-a", b"1")]}
@@ -80,6 +82,9 @@ WS_INVALID = {
     "CONNECTED": {
         "accept_again": {"type": "websocket.accept"},
         "send_text_not_str": {"type": "websocket.send", "text": 5},
+        "send_bytes_not_bytes": {"type": "websocket.send", "bytes": "abc"},
+        "close_bad_code": {"type": "websocket.close", "code": "abc"},
+        "close_bad_reason": {"type": "websocket.close", "code": 1000, "reason": 5},
         "unknown_type": {"type": "websocket.bogus"},
     },
 }
@@ -121,10 +126,10 @@ def variants(case: dict) -> List[Optional[str]]:
     return [None]
 
 
-def grid() -> List[dict]:
+def grid(full: bool = False) -> List[dict]:
     """every crash point x kind x protocol x worker with the canonical variant of the kind, then every other variant of
     every kind on a sweep that reaches each state of the response (REQUEST / RESPONSE / CLOSED, HANDSHAKE / CONNECTED)
-    on every protocol and worker"""
+    on every protocol and worker; `full` (thorough tier): every variant at every crash point"""
     cases = []
     for fam, steps in list(FAMILIES.items()) + [("ws", WS_FAMILY)]:
         for idx in range(len(steps) + 1):
@@ -136,7 +141,9 @@ def grid() -> List[dict]:
                         if v is not None:
                             c["variant"] = v
                         cases.append(c)
-    for fam, idxs in (("read_then_respond", (1, 2, 4)), ("ws", (1, 3))):
+    sweep = [(fam, range(len(steps) + 1)) for fam, steps in list(FAMILIES.items()) + [("ws", WS_FAMILY)]] if full else \
+        [("read_then_respond", (1, 2, 4)), ("ws", (1, 3))]
+    for fam, idxs in sweep:
         for idx in idxs:
             for kind in KINDS:
                 for proto in (("ws",) if fam == "ws" else ("1.1", "2")):
@@ -252,6 +259,8 @@ def check(ctx: Ctx, cases: List[dict]) -> None:
         ctx.distinct([case["family"], case["crash_at"], case["kind"], case.get("variant"), case["proto"], case["worker"]])
         ctx.sample(case, cap=3)
         sig = {"proto": case["proto"], "kind": case["kind"]}
+        if case["kind"] == "invalid":
+            sig["refused"] = script_for(case)[-2][1]["type"]
         v = o["view"]
         if o["stuck"]:
             ctx.violation("session_hangs", case, {"note": "the server session did not finish within the harness timeout"}, sig)
@@ -358,7 +367,7 @@ def stream_sessions() -> List[tuple]:
 
 
 def run(ctx: Ctx) -> None:
-    cases = grid()
+    cases = grid(full=ctx.thorough)
     ctx.exhaustive = True
     check(ctx, cases)
     # stream-level correspondence for the exit step itself (model = Http.appSend … none), refused messages included: the
